@@ -278,9 +278,11 @@ func crashsimExec(r *Run) {
 			// a quarter of these runs: not a kill but a COMMIT that fails (SQLITE_BUSY / SQLITE_FULL at the one moment
 			// the statement itself can no longer notice); the transaction is rolled back and the error returned
 			if t.Chance(1, 4, "sql-commit-error") {
+				// ... or a write statement that fails inside its transaction (SQLITE_IOERR / SQLITE_FULL): the service's
+				// own rollback path runs, and the process goes on
 				var commits []int
 				for i, e := range sqlEvents {
-					if strings.HasSuffix(e, ":commit") {
+					if strings.HasSuffix(e, ":commit") || strings.HasSuffix(e, ":exec") {
 						commits = append(commits, i)
 					}
 				}
@@ -385,14 +387,23 @@ func crashsimExec(r *Run) {
 	}
 	if sqlCommitErr {
 		sqlFail = func(op, q string) error {
-			if op != "commit" || !layer2 || tr.disabled || tr.perAdd == nil || sqlSeen != sqlK {
+			if (op != "commit" && op != "exec") || !layer2 || tr.disabled || tr.perAdd == nil || sqlSeen != sqlK {
 				return nil
 			}
+			if want := sqlEvents[sqlK]; !strings.HasSuffix(want, ":"+op) {
+				return nil // (the drawn event is of the other kind)
+			}
 			sqlK = -1
-			tr.fire("sqlerror-commit@" + tr.curSite)
+			tr.fire("sqlerror-" + op + "@" + tr.curSite)
+			if op == "exec" {
+				return errors.New("simnet: disk I/O error (SQLITE_IOERR) in a write statement")
+			}
 			return errors.New("simnet: database is locked (SQLITE_BUSY) at COMMIT")
 		}
 		defer func() { sqlFail = nil }()
+		// (a lock left behind by a failed statement is answered with SQLITE_BUSY after 40 ms, not after 5 s)
+		simBusyTimeoutMS = 40
+		defer func() { simBusyTimeoutMS = 0 }()
 	}
 	openW(w)
 	acked := map[string]RawHeader{}
@@ -497,6 +508,21 @@ func crashsimExec(r *Run) {
 		} else if again() {
 			i = -1
 		}
+	}
+	if crashes == 0 && careful && len(tr.fired) > 0 && tr.n > maxK(plan) && (!layer2 || sqlK < 0) {
+		// nobody died: one storage call failed, the process lives on, the faults are over. Redelivery IN THE SAME
+		// PROCESS must recover (a restart would close every connection and with it whatever the failed call left
+		// behind - an open transaction, a lock, a held mutex)
+		saved := tr.plan
+		tr.plan = nil
+		for _, raw := range subs {
+			feed(raw, "redeliver-same-process", true)
+		}
+		if d := diffRows(w.Snapshot(), SR); d != "" {
+			r.Fail("C05", "redelivery-diverged", sigOf()+"|same-process", "after redelivery in the same process (no restart) the store differs from the uninterrupted run: %s", d)
+		}
+		tr.plan = saved
+		r.Probe("same-process-redelivery")
 	}
 	if crashes == 0 {
 		afterRestartChecks("after the faulted pass")
